@@ -2,47 +2,162 @@
     distinct parser instances share no mutable state.
 
     This file contains only the property theorems (each closed by [exact]), their assumptions and
-    non-vacuity examples. Model: Sml/Parser.v (instrumented: panic sites, allocation / depth /
-    cost meters; switches for the current code and the three proposed repairs) and Sml/ErrPos.v
-    (newParseError). Proofs: Sml/ErrPosProofs.v, Sml/ParserWitness.v (concrete runs). Tie: the
-    correspondence driver runs this very model on every input the Go harness ran through the real
-    parser (both modes, all entry points) and accepts only if one assignment of the repair
-    switches explains every observation. *)
+    non-vacuity examples.
+
+    Model: Sml/Parser.v — sml/parser.go function by function, both modes, all entry points,
+    instrumented (RPanic where Go's bounds check fires; allocation / recursion-depth / cost
+    meters) with three switches [cfg] = the current code ([cfg_current]) and the three proposed
+    one-to-few-line repairs; Sml/ErrPos.v — newParseError.
+    Proofs: Sml/ErrPosProofs.v, Sml/ParserProofs.v (invariants, every function), Sml/ParserMain.v
+    (whole runs), Sml/ParserInstance.v, Sml/ParserWitness.v (the refuting inputs, vm_compute).
+
+    Every theorem quantifies over ALL inputs [s : list Z], both modes, and EVERY total function
+    [pf] standing for strconv.ParseFloat (code outside go-secs).
+
+    Tie: the correspondence driver runs this very model on every input the Go harness ran through
+    the real parser in a resource-limited child process, and accepts only if ONE assignment of
+    the three switches explains every observation (on the pinned code: all three off). *)
 From Coq Require Import ZArith Bool List Lia.
-From GoSecs Require Import Base.Decimal Sml.ErrPos Sml.ErrPosProofs Sml.Parser Sml.ParserWitness.
+From GoSecs Require Import Base.Decimal Sml.ErrPos Sml.ErrPosProofs Sml.Parser Sml.ParserProofs
+  Sml.ParserMain Sml.ParserInstance Sml.ParserWitness.
 Import ListNotations.
 Open Scope Z_scope.
 
-(** Every position newParseError builds from a non-negative offset is consistent: the offset is
-    clamped into [0, len], Line = 1 + newlines before it, Col = 1 + distance to the line start. *)
+(** ** Totality *)
+
+(** The model never runs out of fuel with [fuel_for_input s] = 2 len + 2 — for the CURRENT code
+    and for every repair combination: all loops and the recursion terminate. *)
+Theorem C14_terminates : forall pf cf strict s, cap_ok cf ->
+  outcome_of (parse_with cf pf (fuel_for_input s) strict s) <> OutOfFuel.
+Proof. exact (fun pf cf strict s H => proj1 (run_total pf cf strict s H)). Qed.
+Print Assumptions C14_terminates.
+
+(** REFUTED on the current code (finding C14-closequote-panic): the instrumented model reaches
+    Go's index-out-of-range panic on "S1F1\n<A \"\" " in non-strict mode. *)
+Theorem C14_total_refuted :
+  exists s, outcome_of (parse_with cfg_current no_float (fuel_for_input s) false s) = Panic.
+Proof. exact total_refuted. Qed.
+Print Assumptions C14_total_refuted.
+
+(** POSITIVE theorem for the REPAIRED bound (model of the repaired function: [quote_bound] =
+    len(p.data) instead of p.len, the only difference): with [c_quote_fix] on — whatever the other
+    two switches — parsing neither runs out of fuel nor panics, for every input, both modes. *)
+Theorem C14_total : forall pf cf strict s, cap_ok cf -> c_quote_fix cf = true ->
+  outcome_of (parse_with cf pf (fuel_for_input s) strict s) <> OutOfFuel /\
+  outcome_of (parse_with cf pf (fuel_for_input s) strict s) <> Panic.
+Proof.
+  exact (fun pf cf strict s H Hq =>
+           conj (proj1 (run_total pf cf strict s H)) (proj2 (run_total pf cf strict s H) Hq)).
+Qed.
+Print Assumptions C14_total.
+
+(** the same for ParseMessage ([ho] = false) and ParseHeader ([ho] = true) *)
+Theorem C14_total_one : forall pf cf strict ho s, cap_ok cf -> c_quote_fix cf = true ->
+  outcome_of (parse_one_with cf pf (fuel_for_input s) strict ho s) <> OutOfFuel /\
+  outcome_of (parse_one_with cf pf (fuel_for_input s) strict ho s) <> Panic.
+Proof.
+  exact (fun pf cf strict ho s H Hq =>
+           conj (proj1 (one_total pf cf strict ho s H)) (proj2 (one_total pf cf strict ho s H) Hq)).
+Qed.
+Print Assumptions C14_total_one.
+
+(** ** Result: valid messages or an error *)
+Theorem C14_result : forall pf cf strict s ms, cap_ok cf ->
+  outcome_of (parse_with cf pf (fuel_for_input s) strict s) = Ok ms -> Forall msg_valid ms.
+Proof. exact (fun pf cf strict s ms => run_valid pf cf strict s ms). Qed.
+Print Assumptions C14_result.
+
+Theorem C14_result_one : forall pf cf strict ho s m, cap_ok cf ->
+  outcome_of (parse_one_with cf pf (fuel_for_input s) strict ho s) = Ok m -> msg_valid m.
+Proof. exact (fun pf cf strict ho s m => one_valid pf cf strict ho s m). Qed.
+Print Assumptions C14_result_one.
+
+(** ** Error positions (holds for the CURRENT code): every syntax error has
+    0 <= Offset <= len, Line = 1 + newlines before Offset, Col = 1 + Offset - start of that line
+    ([pos_ok], Sml/ErrPos.v). *)
+Theorem C14_position : forall pf cf strict s t off line col, cap_ok cf ->
+  outcome_of (parse_with cf pf (fuel_for_input s) strict s) = Err (ESyntax t off line col) ->
+  0 <= off <= blen s /\
+  line = 1 + count_nl (firstn (Z.to_nat off) s) /\
+  exists sol, line_start s off sol /\ col = 1 + off - sol.
+Proof. exact (fun pf cf strict s t off line col => run_position pf cf strict s t off line col). Qed.
+Print Assumptions C14_position.
+
+Theorem C14_position_one : forall pf cf strict ho s t off line col, cap_ok cf ->
+  outcome_of (parse_one_with cf pf (fuel_for_input s) strict ho s) = Err (ESyntax t off line col) ->
+  pos_ok s off line col.
+Proof. exact (fun pf cf strict ho s t off line col => one_position pf cf strict ho s t off line col). Qed.
+Print Assumptions C14_position_one.
+
+(** newParseError itself, for every input and non-negative offset *)
 Theorem C14_position_new_parse_error : forall input offset,
   0 <= offset ->
   let '(off, line, col) := new_parse_error input offset in pos_ok input off line col.
 Proof. exact new_parse_error_ok. Qed.
 Print Assumptions C14_position_new_parse_error.
 
-(** REFUTED on the current code (finding C14-closequote-panic): the instrumented model panics on
-    "S1F1\n<A \"\" " in non-strict mode; with the repaired bound the same input is a syntax error. *)
-Theorem C14_total_refuted :
-  exists s, outcome_of (parse_with cfg_current no_float (fuel_for_input s) false s) = Panic.
-Proof. exact total_refuted. Qed.
-Print Assumptions C14_total_refuted.
+(** ** Resources *)
 
 (** REFUTED on the current code (finding C14-size-hint-alloc): a 19-byte input makes the parser
-    request 16,000,000 bytes; no bound c1 * len + c0 with c1 * 19 + c0 < 16000000 holds. *)
+    request 16,000,000 bytes: no bound c1 * len + c0 with c1 * 19 + c0 < 16000000 holds. *)
 Theorem C14_resources_refuted :
-  exists s, blen s = 19 /\ m_alloc_max (final_meters (parse_with cfg_current no_float (fuel_for_input s) false s)) = 16000000.
+  exists s, blen s = 19 /\
+    m_alloc_max (final_meters (parse_with cfg_current no_float (fuel_for_input s) false s)) = 16000000.
 Proof. exact resources_refuted. Qed.
 Print Assumptions C14_resources_refuted.
 
-(** REFUTED on the current code (finding C14-nesting-stack-overflow): recursion depth is not
-    bounded by secs2.MaxListDepth (nor by any constant: depth 1000 on 3005 bytes). *)
+(** REFUTED on the current code (finding C14-nesting-stack-overflow): the recursion depth is not
+    bounded by secs2.MaxListDepth. *)
 Theorem C14_depth_refuted :
   exists s, m_depth_max (final_meters (parse_with cfg_current no_float (fuel_for_input s) false s)) = 65 /\ 65 > max_list_depth.
 Proof. exact depth_refuted. Qed.
 Print Assumptions C14_depth_refuted.
 
-(** Non-vacuity: the model accepts well-formed text in both modes, and reports positions. *)
+(** POSITIVE theorem for the repaired variants ([meters_ok], Sml/ParserMain.v), for every input:
+    - time: at most 40 len + 40 scanning primitives, each looking at no more than 4 (len + 1)
+      bytes: steps <= 160 (len + 1)^2 — this part holds for the CURRENT code as well;
+    - at most len + 1 capacities are requested; with [c_cap_hint] each is <= 16 len bytes and
+      their sum <= 16 len (len + 1);
+    - with [c_depth_cap = Some d] the recursion depth never exceeds d + 1. *)
+Theorem C14_resources : forall pf cf strict s, cap_ok cf ->
+  outcome_of (parse_with cf pf (fuel_for_input s) strict s) <> Panic ->
+  let m := final_meters (parse_with cf pf (fuel_for_input s) strict s) in
+  m_calls m <= 40 * blen s + 40 /\
+  0 <= m_steps m <= 160 * (blen s + 1) * (blen s + 1) /\
+  m_allocs m <= blen s + 1 /\
+  (c_cap_hint cf = true -> m_alloc_max m <= 16 * blen s /\ m_alloc_sum m <= 16 * blen s * (blen s + 1)) /\
+  (forall d, c_depth_cap cf = Some d -> m_depth_max m <= d + 1).
+Proof. exact (fun pf cf strict s => run_resources pf cf strict s). Qed.
+Print Assumptions C14_resources.
+
+Theorem C14_resources_one : forall pf cf strict ho s, cap_ok cf ->
+  outcome_of (parse_one_with cf pf (fuel_for_input s) strict ho s) <> Panic ->
+  meters_ok cf (blen s) (final_meters (parse_one_with cf pf (fuel_for_input s) strict ho s)).
+Proof. exact (fun pf cf strict ho s => one_resources pf cf strict ho s). Qed.
+Print Assumptions C14_resources_one.
+
+(** ** Instances: the outcome of Parse on ANY parser object (whatever it was used for before)
+    is that of a fresh parser with the same options, the options are never changed, and a
+    sequence of calls on one reused object equals, call by call, calls on fresh objects. *)
+Theorem C14_instances_independent : forall cf pf o input,
+  fst (obj_parse cf pf o input) = fst (obj_parse cf pf (new_parser (o_strict o)) input) /\
+  o_strict (snd (obj_parse cf pf o input)) = o_strict o.
+Proof. exact obj_parse_independent. Qed.
+Print Assumptions C14_instances_independent.
+
+Theorem C14_instances_sequence : forall cf pf inputs o,
+  obj_parse_all cf pf o inputs = map (fun i => fst (obj_parse cf pf (new_parser (o_strict o)) i)) inputs.
+Proof. exact obj_parse_all_fresh. Qed.
+Print Assumptions C14_instances_sequence.
+
+(** ** Non-vacuity *)
+
+(** the hypotheses are satisfiable: both configurations of interest have a sane depth cap *)
+Example C14_cap_ok_nonvacuous : cap_ok cfg_current /\ cap_ok cfg_repaired /\ c_quote_fix cfg_repaired = true.
+Proof. exact (conj cap_ok_current (conj cap_ok_repaired eq_refl)). Qed.
+
+(** the model accepts well-formed text in both modes (so C14_result / C14_resources speak about
+    non-trivial runs) and reports positions (C14_position) *)
 Example C14_model_accepts :
   outcome_of (parse_with cfg_current no_float (fuel_for_input w_valid) false w_valid) = Ok w_valid_msgs /\
   outcome_of (parse_with cfg_current no_float (fuel_for_input w_valid) true w_valid) = Ok w_valid_msgs.
@@ -50,3 +165,10 @@ Proof. exact model_accepts. Qed.
 Example C14_model_position :
   outcome_of (parse_with cfg_current no_float (fuel_for_input w_err) false w_err) = Err (ESyntax T_ascii_quote 14 3 7).
 Proof. exact model_position. Qed.
+
+(** the three refuting inputs behave under the repairs as the positive theorems say *)
+Example C14_repairs_on_witnesses :
+  outcome_of (run with_quote_fix false w_panic) = Err (ESyntax T_ascii_unclosed 9 2 5) /\
+  m_alloc_max (final_meters (run with_cap_hint false w_hint)) = 48 /\
+  m_depth_max (final_meters (run with_depth_cap false (w_deep 1000))) = 65.
+Proof. exact (conj w_panic_fixed (conj (proj2 w_hint_capped) (proj2 w_deep_capped))). Qed.
